@@ -81,10 +81,29 @@ func newEnv(t *testing.T, backend string) *env {
 	return &env{name: backend, c: c, st: c.VerifC21Store()}
 }
 
+// cstr emits a Go string as a Coq string: a literal when it is printable ASCII
+// (cheap to parse), the byte-list form of vh.Str otherwise.
+func cstr(s string) string {
+	for i := 0; i < len(s); i++ {
+		if s[i] < 0x20 || s[i] > 0x7e || s[i] == '"' {
+			return vh.Str(s)
+		}
+	}
+	return "\"" + s + "\"%string"
+}
+
+func cstrList(vs []string) string {
+	s := make([]string, len(vs))
+	for i, v := range vs {
+		s[i] = cstr(v)
+	}
+	return vh.List(s)
+}
+
 func labelsCoq(m map[string]string) string {
 	items := []string{}
 	for _, k := range vh.SortedKeys(m) {
-		items = append(items, vh.Pair(vh.Str(k), vh.Str(m[k])))
+		items = append(items, vh.Pair(cstr(k), cstr(m[k])))
 	}
 	return vh.List(items)
 }
@@ -92,17 +111,17 @@ func labelsCoq(m map[string]string) string {
 func (cs *caseSpec) storeCoq() string {
 	ns := make([]string, len(cs.Nodes))
 	for i, n := range cs.Nodes {
-		ns[i] = fmt.Sprintf("(mkNode %s %s %s %s %s %s)", vh.Str(n.Name), vh.Str(n.Pod), labelsCoq(n.Labels),
+		ns[i] = fmt.Sprintf("(mkNode %s %s %s %s %s %s)", cstr(n.Name), cstr(n.Pod), labelsCoq(n.Labels),
 			vh.Bool(n.Test), vh.Bool(n.Bypass), vh.Bool(n.Status))
 	}
 	pods := append([]string{}, cs.Pods...)
 	sort.Strings(pods) // GetAllPods order on etcd; the result does not depend on it (theorem filter_nodes_pods_perm)
-	return fmt.Sprintf("(mkStore %s %s)", vh.StrList(pods), vh.List(ns))
+	return fmt.Sprintf("(mkStore %s %s)", cstrList(pods), vh.List(ns))
 }
 
 func (cs *caseSpec) filterCoq() string {
 	f := cs.F
-	return fmt.Sprintf("(mkFilter %s %s %s %s %s)", vh.Str(f.Pod), vh.StrList(f.Includes), vh.StrList(f.Excludes), labelsCoq(f.Labels), vh.Bool(f.All))
+	return fmt.Sprintf("(mkFilter %s %s %s %s %s)", cstr(f.Pod), cstrList(f.Includes), cstrList(f.Excludes), labelsCoq(f.Labels), vh.Bool(f.All))
 }
 
 // runCase builds the store content, runs the two observations, and cleans up.
@@ -311,12 +330,12 @@ func TestC21(t *testing.T) {
 		if obsErr == nil {
 			items := make([]string, len(obs))
 			for i, o := range obs {
-				items[i] = vh.Pair(vh.Str(o.Name), vh.Bool(o.Available))
+				items[i] = vh.Pair(cstr(o.Name), vh.Bool(o.Available))
 			}
 			obsT = vh.Some(vh.List(items))
 		}
 		if lockedErr == nil {
-			lockedT = vh.Some(vh.StrList(locked))
+			lockedT = vh.Some(cstrList(locked))
 		}
 		term := fmt.Sprintf("(mkCase %s %s %s %s)", cs.storeCoq(), cs.filterCoq(), obsT, lockedT)
 		desc := map[string]any{"backend": e.name, "case": cs, "filterNodes": obs, "filterNodes_err": errStr(obsErr),
@@ -371,7 +390,7 @@ func TestC21(t *testing.T) {
 		}
 		s := append([]string{}, in...)
 		p := utils.Unique(s, func(i int) string { return s[i] })
-		term := fmt.Sprintf("(mkU %s %s %d)", vh.StrList(in), vh.StrList(s), p)
+		term := fmt.Sprintf("(mkU %s %s %d)", cstrList(in), cstrList(s), p)
 		u.Count(fmt.Sprintf("len=%d", len(in)))
 		u.Count(fmt.Sprintf("dups=%v", hasDup(in)))
 		u.Add(term, map[string]any{"in": in, "out": s, "p": p}, map[string]any{"dups": hasDup(in)}, hasDup(in))
